@@ -83,17 +83,6 @@ __CPROVER_ensures(VP_NO_LOCK_HELD && s->s_ref == OLD(s->s_ref) - 1 && g_free_cal
 __CPROVER_ensures((s->s_closed && s->s_ref <= 1) ? (g_wake_calls == OLD(g_wake_calls) + 1 && g_wake_cv == &s->s_close_cv) : g_wake_calls == OLD(g_wake_calls))
 ;
 
-/* was_freed clauses of the release contracts.  A unit that REPLACES nni_ctx_close by its contract may define
- * SC_CALLEE_NO_WAS_FREED: the clauses are then dropped from the ASSUMED callee contract (the caller assumes less --
- * the release is still counted in g_free_calls); with them the caller's path through the call came out
- * unreachable in the reachability probes (DFCC artefact around __CPROVER_was_freed in replaced contracts). */
-#ifdef SC_CALLEE_NO_WAS_FREED
-#define SC_WAS_FREED(p) 1
-#define SC_NOT_FREED(p) 1
-#else
-#define SC_WAS_FREED(p) __CPROVER_was_freed(p)
-#define SC_NOT_FREED(p) (!__CPROVER_was_freed(p))
-#endif
 /* context release: the count drops by exactly one; the context is destroyed
  * exactly when the last reference of a CLOSED context goes, never before:
  * its id leaves ctx_ids FIRST (before the block is released: no map entry
@@ -111,7 +100,7 @@ __CPROVER_frees(ctx)
 #define CTX_RELE_POST(ctx, destroy) \
 __CPROVER_ensures(VP_NO_LOCK_HELD) \
 /* not the last reference of a closed context: one reference less, nothing else */ \
-__CPROVER_ensures(!(destroy) ==> (SC_NOT_FREED(ctx) && (ctx)->c_ref == OLD((ctx)->c_ref) - 1 && VP_HEAP_DELTA(0, 0) && g_idr_calls == OLD(g_idr_calls) && g_wake_calls == OLD(g_wake_calls) && g_cfini_calls == OLD(g_cfini_calls) \
+__CPROVER_ensures(!(destroy) ==> (!__CPROVER_was_freed(ctx) && (ctx)->c_ref == OLD((ctx)->c_ref) - 1 && VP_HEAP_DELTA(0, 0) && g_idr_calls == OLD(g_idr_calls) && g_wake_calls == OLD(g_wake_calls) && g_cfini_calls == OLD(g_cfini_calls) \
     && (ctx)->c_node.ln_next == OLD((ctx)->c_node.ln_next) && (ctx)->c_node.ln_prev == OLD((ctx)->c_node.ln_prev))) \
 /* destroyed: its id removed from ctx_ids, once, before anything was released */ \
 __CPROVER_ensures((destroy) ==> (SC_REMOVED(ctx_ids, OLD((ctx)->c_id)) && g_idr_at_free == OLD(g_free_calls))) \
@@ -119,7 +108,7 @@ __CPROVER_ensures((destroy) ==> (SC_REMOVED(ctx_ids, OLD((ctx)->c_id)) && g_idr_
 __CPROVER_ensures((destroy) ==> (NODE_UNLINKED_POST((ctx)->c_node) && g_wake_calls == OLD(g_wake_calls) + 1 && g_wake_cv == &OLD((ctx)->c_sock)->s_close_cv)) \
 /* protocol state finalised once (if there is any), BEFORE the block goes; the block is released exactly once, sized */ \
 __CPROVER_ensures((destroy) ==> (OLD((ctx)->c_data) != NULL ? (g_cfini_calls == OLD(g_cfini_calls) + 1 && g_cfini_data == OLD((ctx)->c_data) && g_cfini_at_free == OLD(g_free_calls)) : g_cfini_calls == OLD(g_cfini_calls))) \
-__CPROVER_ensures((destroy) ==> (SC_WAS_FREED(ctx) && VP_HEAP_DELTA(0, 1)))
+__CPROVER_ensures((destroy) ==> (__CPROVER_was_freed(ctx) && VP_HEAP_DELTA(0, 1)))
 
 void nni_ctx_rele(nni_ctx *ctx)
 __CPROVER_requires(CTX_SHAPE(ctx) && ctx->c_ref >= 1 && VP_NO_LOCK_HELD)
